@@ -183,6 +183,14 @@ func zzOpenNode(st storage.ManagedStore) *RaftNode {
 // zzCurCovered is what the engine redirect of (*raftLog).LastIndex answers.
 var zzCurCovered uint64
 
+// zzCurExisting is what the engine redirect of raft.HasExistingState answers: whether the Raft
+// directory next to the store being opened has been used by a node before.
+var zzCurExisting bool
+
+func zzHasExistingState(logs raft.LogStore, stable raft.StableStore, snaps raft.SnapshotStore) (bool, error) {
+	return zzCurExisting, nil
+}
+
 // zzLastIndexModel is the engine redirect target of (*raftLog).LastIndex in the
 // FSM-level harnesses: the Raft log next to the store is the ghost MemStore.Covered.
 func zzLastIndexModel(l *raftLog) (uint64, error) { return zzCurCovered, nil }
@@ -193,9 +201,12 @@ func zzLastIndexModel(l *raftLog) (uint64, error) { return zzCurCovered, nil }
 // at that index and a real, empty file snapshot store.
 func zzReconcile(n *RaftNode, st storage.ManagedStore) {
 	covered := uint64(0)
+	existing := false
 	switch ms := st.(type) {
 	case *models.MemStore:
 		covered = ms.Covered
+		existing = ms.Started || ms.Covered > 0
+		ms.Started = true
 	}
 	// (looked up through an interface so that the harness still builds on a tree that has no such step)
 	rc, has := interface{}(n).(interface{ reconcileStateWithLog() error })
@@ -204,6 +215,7 @@ func zzReconcile(n *RaftNode, st storage.ManagedStore) {
 	}
 	if rt.Symbolic() {
 		zzCurCovered = covered
+		zzCurExisting = existing
 		if err := rc.reconcileStateWithLog(); err != nil {
 			panic(err)
 		}
